@@ -2513,6 +2513,15 @@ func (s *swamp) Destroy() {
 // next request loads it again.
 func (s *swamp) destroyIfStillEmpty() {
 	s.destroy(true)
+	// Every caller has given its own vigil back (CeaseVigil) right before this call,
+	// because the drain in destroy would otherwise wait for the caller itself - and
+	// every caller's request handler ceases that same vigil once more when it returns.
+	// When destroy returns early (another request is already destroying the swamp and
+	// is still draining), that second CeaseVigil took away the vigil of a third
+	// request - a write still in flight - so the drain ended, the swamp was deleted
+	// and the write, stored in the dead instance, was acknowledged and lost. Taking
+	// the vigil again keeps the pair balanced.
+	s.BeginVigil()
 }
 
 func (s *swamp) destroy(onlyIfStillEmpty bool) {
